@@ -94,15 +94,25 @@ class LoopCtx(object):
     def __init__(self, eng, pre, st, j, seq, mode, label):
         self.eng, self.pre, self.st, self.j, self.seq, self.mode, self.label = eng, pre, st, j, seq, mode, label
         self.covered = set()
+        self.alias = {}
+
+    def a(self, name):
+        """the current name of the local the contract calls `name` (see Engine.loop_alias)"""
+        return self.alias.get(name, name)
+
+    def bound(self, name):
+        if name not in self.st.env:
+            raise Unsupported("the loop invariant at %s names the local %r, which this loop does not bind (renamed or restructured code)" % (self.label, name))
 
     def var(self, name):
-        return self.st.env.get(name)
+        return self.st.env.get(self.a(name))
 
     def prevar(self, name):
-        return self.pre.env.get(name)
+        return self.pre.env.get(self.a(name))
 
     def temps(self, *names):
         for n in names:
+            n = self.a(n)
             self.covered.add(n)
             if self.mode == "abstract":
                 self.st.env.pop(n, None)
@@ -110,6 +120,7 @@ class LoopCtx(object):
     def keep(self, *names):
         """variables the body must leave bound to the very same value"""
         for n in names:
+            n = self.a(n)
             self.covered.add(n)
             if self.mode == "check":
                 a, b = self.pre.env.get(n), self.st.env.get(n)
@@ -137,8 +148,10 @@ class LoopCtx(object):
                 self.st.assume(z3.ForAll([kq], closure(kq)))
 
     def num(self, name, term, isint=False):
+        name = self.a(name)
         self.covered.add(name)
         if self.mode == "check":
+            self.bound(name)
             v = self.st.env.get(name)
             ok = is_num(v)
             self.eng.oblige(self.st, "%s/num:%s" % (self.label, name), (num_term(v) == term) if ok else z3.BoolVal(False), kind="invariant")
@@ -147,9 +160,11 @@ class LoopCtx(object):
 
     def arr(self, name, kind, dtype, shape, miss, val, fresh=True, where=None):
         """`name` holds an array with exactly this abstract state at valid cells (payload unspecified)."""
+        name = self.a(name)
         self.covered.add(name)
         eng, st = self.eng, self.st
         if self.mode == "check":
+            self.bound(name)
             v = st.env.get(name)
             if not (isinstance(v, Ref) and isinstance(st.get(v), ArrState)):
                 eng.oblige(st, "%s/arr:%s:is-array" % (self.label, name), z3.BoolVal(False), kind="invariant")
@@ -181,11 +196,13 @@ class LoopContract(object):
 
     def check(self, eng, pre, st, j, seq, label):
         I = LoopCtx(eng, pre, st, j, seq, "check", label)
+        I.alias = getattr(self, "_alias", None) or {}
         self.inv(I)
         self._coverage(eng, pre, st, I, label)
 
     def abstract(self, eng, pre, st, j, seq):
         I = LoopCtx(eng, pre, st, j, seq, "abstract", "abstract")
+        I.alias = getattr(self, "_alias", None) or {}
         self.inv(I)
 
     def _coverage(self, eng, pre, st, I, label):
